@@ -591,7 +591,7 @@ fn scenarios(thorough: bool) -> Vec<Scenario> {
 		// level 2 of this one holds the schedules in which the cancel completes between the refresh's
 		// reading of its list and its TTL sweep, with the block already mined: give it room in the quick tier
 		Scenario { ttl: true, quick_budget: Some(2600), ..sc("refresh+cancel-expiring+mine", Unit::Refresh, vec![vec![Unit::CancelWaiting]], vec![Unit::EvMine]) },
-		Scenario { incoming: true, quick_budget: Some(900), ..sc("incoming:refresh+init-lock+mine", Unit::Refresh, vec![il()], vec![Unit::EvMine]) },
+		Scenario { incoming: true, quick_budget: Some(1300), ..sc("incoming:refresh+init-lock+mine", Unit::Refresh, vec![il()], vec![Unit::EvMine]) },
 		Scenario { restored: true, ..sc("restored:scan+receive+receive", Unit::Scan { delete_unconfirmed: false }, vec![vec![Unit::Receive, Unit::Receive2]], vec![]) },
 	];
 	if thorough {
